@@ -993,3 +993,49 @@ def check_dangling(ctx, fn, rule='R-PAIR.dangling', releasers=('gdstk::free_allo
         ctx.check(path is None, rule, '%s/%s@%s' % (fn.qn.replace('gdstk::', ''), pretty_key(key), c.loc()), c.loc(), '`%s` is not read again after it is released' % pretty_key(key),
                   '`%s` is released here and then %s without having been reassigned (%s): the caller receives / the callee uses a dangling pointer' % (pretty_key(key), what, g.describe_path(path)[-3:] if path else ''))
     return n
+
+
+# ------------------------------------------------------------------------------------------------
+# R-UNDERFLOW: unsigned `list.count - c` where the list may be shorter than c
+
+def check_count_underflow(ctx, fn, label, producers=('gdstk::Repetition::get_offsets', 'gdstk::Repetition::get_extrema'), rule='R-UNDERFLOW'):
+    """A local array filled by a producer that may append NOTHING (a lattice with 0 columns or rows enumerates no offsets): every
+    unsigned `array.count - c` must run under a condition that establishes array.count >= c (an enclosing test or a guard clause
+    before it); otherwise the difference wraps to 2^64 - c and becomes an allocation size / loop bound."""
+    from . import tables
+    arrays = set()
+    for c in fn.walk():
+        if c.k == 'CXXMemberCallExpr' and (c.callee or '') in producers and c.args:
+            k = lvalue_key(_strip_casts(c.args[0]))
+            if k:
+                arrays.add(k)
+    n = 0
+    for x in fn.walk():
+        if x.k != 'BinaryOperator' or x.op != '-':
+            continue
+        l, r = _strip_casts(x.child('lhs')), _strip_casts(x.child('rhs'))
+        lk = lvalue_key(l)
+        if r is None or r.cv is None or r.cv < 1 or lk is None or not lk.endswith('.count') or lk[:-len('.count')] not in arrays:
+            continue
+        n += 1
+        need = r.cv
+        ok = False
+        for cnd, pol in tables.path_conds(x):
+            cn = _strip_casts(cnd)
+            if cn.k == 'BinaryOperator' and cn.op in ('<', '>', '<=', '>=', '==', '!='):
+                a, b = _strip_casts(cn.child('lhs')), _strip_casts(cn.child('rhs'))
+                op = cn.op
+                if lvalue_key(b) == lk and a.cv is not None:
+                    a, b = b, a
+                    op = {'<': '>', '>': '<', '<=': '>=', '>=': '<=', '==': '==', '!=': '!='}[op]
+                if lvalue_key(a) == lk and b.cv is not None:
+                    k_ = b.cv
+                    if not pol:
+                        op = {'<': '>=', '>': '<=', '<=': '>', '>=': '<', '==': '!=', '!=': '=='}[op]
+                    if (op == '>' and k_ >= need - 1) or (op == '>=' and k_ >= need) or (op == '!=' and k_ == 0 and need == 1) or (op == '==' and k_ >= need):
+                        ok = True
+            elif lvalue_key(cn) == lk and pol and need == 1:
+                ok = True
+        ctx.check(ok, rule, '%s/%s-%d@%s' % (label, pretty_key(lk), need, x.loc()), x.loc(), '`%s - %d` is evaluated only where %s >= %d is established' % (pretty_key(lk), need, pretty_key(lk), need),
+                  '`%s - %d` is evaluated in unsigned arithmetic although the list may be empty (a repetition with 0 columns or rows enumerates no offsets): it wraps to 2^64 - %d and is used as an allocation size / loop bound' % (pretty_key(lk), need, need))
+    return n
